@@ -132,14 +132,15 @@ def all_forests(n, outliers=False, idxs=None):
     return res
 
 
-def random_forest(rng, n, max_children=8, p_outlier=0.0, shape=None, n_tops=None):
-    """Random abstract forest over n data points.  shape in {None,'chain','star','bushy'}."""
+def random_forest(rng, n, max_children=8, p_outlier=0.0, shape=None, n_tops=None, min_clones=1):
+    """Random abstract forest over n data points.  shape in {None,'chain','star','bushy'}.  min_clones: lower bound on
+    the number of clones (for trees with more than 256 clones)."""
     idxs = list(range(n))
     outs = [i for i in idxs if rng.random() < p_outlier]
     rest = [i for i in idxs if i not in outs]
     if not rest:
         return AForest([], [], outs)
-    K = int(rng.integers(1, len(rest) + 1))
+    K = int(rng.integers(min(min_clones, len(rest)), len(rest) + 1))
     rng.shuffle(rest)
     blocks = [[rest[i]] for i in range(K)]
     for x in rest[K:]:
